@@ -6,9 +6,11 @@
    [nearest border p b] b is a border point at minimal distance from p, [reloc1 border p] the model's loop body
    applied to p (so that relocated_grid_via_jit_from grid border = map (reloc1 border) grid),
    [closest border p] the border point the code pairs with p (first argmin), [block m ss i] the sub-pixel indexes
-   of slim pixel i, [bbox_centre_of g cc] cc is the centre of the bounding box of the points g. *)
+   of slim pixel i, [bbox_centre_of g cc] cc is the centre of the bounding box of the points g,
+   [shape_ok m ss] rectangular mask with an unmasked pixel and one sub-size >= 1 per unmasked pixel,
+   [sub_offset ss i] number of sub-pixels of the slim pixels before i, [sz ss i] sub-size of slim pixel i. *)
 From Coq Require Import Reals List.
-From PAV Require Import Base.NumOps Base.Res Model.C18 Proofs.C18.
+From PAV Require Import Base.NumOps Base.Res Model.C18 Proofs.C18 Proofs.C18idx Proofs.C18x.
 Import ListNotations.
 Local Open Scope R_scope.
 
@@ -136,6 +138,47 @@ Theorem C18_furthest_unbound_iff_empty : forall (g : list (R * R)) idx cc,
   @furthest_grid_2d_slim_index_from ROps g idx cc = None <-> idx = [].
 Proof. exact furthest_none_iff. Qed.
 
+
+(* ---- the index side (closed under the global context): border pixels are the set-theoretic border, the block of
+        slim pixel i is the index range [sub_offset i, sub_offset i + s_i^2), and the pixel-unit grid has the
+        expected closed form: sub-pixel (a, b) of pixel (y, x) sits at
+        ((H-1)/2 - y + 1/2 - (2a+1)/(2s), x - (W-1)/2 - 1/2 + (2b+1)/(2s)) *)
+Theorem C18_border_pixels_are_spec : forall m, rectb m = true -> border_slim_indexes_from m = border_slim_spec m.
+Proof. exact border_slim_is_spec. Qed.
+Theorem C18_border_spec_membership : forall m i,
+  In i (border_slim_spec m) <->
+  (i < total_pixels_2d_from m)%nat /\
+  is_border_spec m (fst (nth i (native_index_for_slim_index_2d_from m) (0, 0)%nat))
+                   (snd (nth i (native_index_for_slim_index_2d_from m) (0, 0)%nat)) = true.
+Proof. exact in_border_slim_spec. Qed.
+Theorem C18_block_is_range : forall m ss i, (i < total_pixels_2d_from m)%nat ->
+  nth i (sub_slim_indexes_for_slim_index m ss) [] = seq (sub_offset ss i) (sz ss i * sz ss i).
+Proof. exact block_is_range. Qed.
+Theorem C18_unit_grid_closed_form : forall m ss i a b,
+  (i < total_pixels_2d_from m)%nat -> (a < sz ss i)%nat -> (b < sz ss i)%nat ->
+  let y := fst (nth i (native_index_for_slim_index_2d_from m) (0, 0)%nat) in
+  let x := snd (nth i (native_index_for_slim_index_2d_from m) (0, 0)%nat) in
+  let s := sz ss i in
+  nth (sub_offset ss i + (a * s + b)) (@unit_grid ROps m ss) (0, 0) =
+    ((INR (nrows m) - 1) / 2 - INR y + 1 / 2 - (2 * INR a + 1) / (2 * INR s),
+     INR x - (INR (ncols m) - 1) / 2 - 1 / 2 + (2 * INR b + 1) / (2 * INR s)).
+Proof. exact unit_grid_closed_form. Qed.
+(* ---- in one piece: for a well-shaped relocator the selection succeeds and returns, for each set-theoretic border
+        pixel in order, an index of that pixel's range at maximal distance from the bounding-box centre *)
+Theorem C18_sub_border_total : forall m ss, shape_ok m ss = true ->
+  exists out, @sub_border_pixel_slim_indexes_from ROps m ss = Ok out /\ length out = length (border_slim_spec m).
+Proof. exact sub_border_total. Qed.
+Theorem C18_sub_border_farthest_in_range : forall m ss, shape_ok m ss = true ->
+  exists out cc,
+    @sub_border_pixel_slim_indexes_from ROps m ss = Ok out /\ bbox_centre_of (@unit_grid ROps m ss) cc /\
+    Forall2 (fun bp k =>
+        (bp < total_pixels_2d_from m)%nat /\
+        (sub_offset ss bp <= k < sub_offset ss bp + sz ss bp * sz ss bp)%nat /\
+        forall k', (sub_offset ss bp <= k' < sub_offset ss bp + sz ss bp * sz ss bp)%nat ->
+          dist (nth k' (@unit_grid ROps m ss) (0, 0)) cc <= dist (nth k (@unit_grid ROps m ss) (0, 0)) cc)
+      (border_slim_spec m) out.
+Proof. exact sub_border_farthest_in_range. Qed.
+
 (* ---- non-vacuity *)
 (* border <> [], a point beyond the smallest border radius (radius 3 against the unit diamond) that is really
    moved: to radius 1 *)
@@ -153,6 +196,12 @@ Example C18_sub_border_example : @sub_border_pixel_slim_indexes_from ROps [[fals
 Proof. exact example_sub_border. Qed.
 Example C18_gather_example : gather [(3, 0); (1, 0); (0, 1)] [1%nat; 2%nat] = Ok [(1, 0); (0, 1)].
 Proof. exact example_gather. Qed.
+
+(* a well-shaped relocator with four border pixels (3x3 mask, corners masked, sub-size 2) *)
+Example C18_shape_example :
+  shape_ok [[true; false; true]; [false; false; false]; [true; false; true]] [2; 2; 2; 2; 2]%nat = true /\
+  border_slim_spec [[true; false; true]; [false; false; false]; [true; false; true]] = [0; 1; 3; 4]%nat.
+Proof. exact example_shape_ok. Qed.
 
 Print Assumptions C18_length_and_order_preserved.
 Print Assumptions C18_relocation_total.
@@ -174,3 +223,9 @@ Print Assumptions C18_sub_border_is_farthest_subpixel.
 Print Assumptions C18_sub_border_in_block_and_farthest.
 Print Assumptions C18_furthest_is_last_maximiser.
 Print Assumptions C18_furthest_unbound_iff_empty.
+Print Assumptions C18_border_pixels_are_spec.
+Print Assumptions C18_border_spec_membership.
+Print Assumptions C18_block_is_range.
+Print Assumptions C18_unit_grid_closed_form.
+Print Assumptions C18_sub_border_total.
+Print Assumptions C18_sub_border_farthest_in_range.
